@@ -16,6 +16,7 @@ KNOWN = ("no-uniqueness", "Plane.XZ:axes='sxyz':angle_position=1")
 def one(d):
     meta = json.load(open(os.path.join(d, "meta.json")))
     expected = (meta.get("true_alarms") or {}).get("alarms", {})
+    kfa = meta.get("known_false_alarm") or {}
     t = tempfile.mkdtemp(prefix="evo_commit_")
     try:
         shutil.copytree("/repo/evo", os.path.join(t, "evo"),
@@ -46,6 +47,8 @@ def one(d):
                 undec[pid] = v["undecided"] or v["error"]
         missing = [pid for pid in expected if pid not in true and
                    pid not in undec and pid not in false]
+        if false and all(pid in kfa for pid in false):
+            return d, "KNOWN-FALSE-ALARM", false
         if false:
             return d, "FALSE-ALARM", {"false": false, "undecided": undec}
         if undec:
